@@ -17,7 +17,7 @@ from multiprocessing import Pool
 
 import numpy as np
 
-from .. import common, pipecheck, scenes, sysworld, tablecheck
+from .. import common, metamorph, pipecheck, scenes, sysworld, tablecheck
 
 
 def split_obs(o):
@@ -28,11 +28,17 @@ def split_obs(o):
     return parts[0], roots, parts[1:]
 
 
+def _buf(col):
+    try:
+        return col.values.__array_interface__['data'][0]
+    except Exception:      # extension arrays (strings) and object columns: no stable buffer address to compare
+        return 0
+
+
 def frame_fingerprint(df):
     return (list(df.columns), [str(t) for t in df.dtypes], list(map(repr, df.index)),
             [tuple(map(repr, r)) for r in df.itertuples(index=False)],
-            [df[c].values.__array_interface__['data'][0] if df[c].dtype != object and str(df[c].dtype) != 'string' else 0
-             for c in df.columns])
+            [_buf(df[c]) if df[c].dtype != object else 0 for c in df.columns])
 
 
 def _work(args):
@@ -78,18 +84,33 @@ def _work(args):
     df = scenes.make_frame(rows)
     if rng.random() < 0.3:
         df.index = [rng.randrange(50) for _ in range(len(df))]
+    layouts = []
+    if rng.random() < 0.6:
+        # accepted tables that the checker has to normalise on the fly (other dtypes, extra columns, column order):
+        # the normalisation must happen on the package's own copy
+        for how in rng.sample(metamorph.LAYOUTS, rng.choice([1, 1, 2])):
+            df = metamorph.relayout(df, how, rng)
+            layouts.append(how)
+    route = rng.choice(['run', 'run', 'chunk', 'metar'])
     p = copy.deepcopy(prms)
     fp_before, g_before = frame_fingerprint(df), sysworld.tree(dynamic.AMPYCLOUD_PRMS)
     p_before = sysworld.observe('x', [('C', p)])
     with warnings.catch_warnings():
         warnings.simplefilter('ignore')
         try:
-            chunk = ampycloud.run(df, prms=p)
-            chunk.metar_msg()
+            if route == 'run':
+                chunk = ampycloud.run(df, prms=p)
+                chunk.metar_msg()
+            elif route == 'chunk':
+                from ampycloud.data import CeiloChunk
+                chunk = CeiloChunk(df, prms=p)
+                chunk.find_slices(); chunk.find_groups(); chunk.find_layers()
+            else:
+                ampycloud.metar(df)
         except Exception as e:
             findings.append(('C11.run-raised', f'{type(e).__name__}'))
     if frame_fingerprint(df) != fp_before:
-        findings.append(('C11.caller-frame-untouched', 'the caller DataFrame changed (values, dtypes, columns, index or buffers)'))
+        findings.append(('C11.caller-frame-untouched', f'the caller DataFrame changed (values, dtypes, columns, index or buffers); route {route}, layout {layouts}'))
     if sysworld.observe('x', [('C', p)]) != p_before:
         findings.append(('C11.caller-dict-untouched', 'the per-call dictionary changed under run()'))
     if sysworld.tree(dynamic.AMPYCLOUD_PRMS) != g_before:
@@ -116,7 +137,8 @@ def run(chk):
         for clause, detail in r['findings']:
             chk.spec_fail(clause, detail, replay)
         if ans.startswith('SYS bad-request'):
-            raise common.InfraError('driver rejected a SYS request: ' + ans[:200])
+            chk.mismatch('what the implementation produced cannot be expressed as a model request (driver: bad-request)', ans[:200], replay)
+            continue
         if ans != 'SYS ok':
             chk.mismatch('parameter-world model = implementation (contents and identities)', ans[:400], replay)
     return None
